@@ -44,6 +44,180 @@ fn to_expr(t: &Value, vars: &HashMap<String, Var>) -> Expr {
     }
 }
 
+
+/// Operands as a user of the builder would write them: variable handles, integer and float
+/// literals, Booleans, or already-built expressions.  `to_native` always picks the most
+/// specific operator overload / helper the public API offers for the operand kinds.
+enum Opd {
+    V(Var),
+    I(i32),
+    F(f64),
+    E(Expr),
+}
+
+impl Opd {
+    fn into_expr(self) -> Expr {
+        match self {
+            Opd::V(v) => Expr::from(v),
+            Opd::I(i) => Expr::from(i),
+            Opd::F(f) => Expr::from(f),
+            Opd::E(e) => e,
+        }
+    }
+}
+
+macro_rules! arith {
+    ($a:expr, $b:expr, $op:tt) => {
+        match ($a, $b) {
+            (Opd::V(a), Opd::V(b)) => a $op b,
+            (Opd::V(a), Opd::I(b)) => a $op b,
+            (Opd::V(a), Opd::F(b)) => a $op b,
+            (Opd::V(a), Opd::E(b)) => a $op b,
+            (Opd::I(a), Opd::V(b)) => a $op b,
+            (Opd::I(a), Opd::E(b)) => a $op b,
+            (Opd::I(a), Opd::I(b)) => Expr::from(a) $op b,
+            (Opd::I(a), Opd::F(b)) => Expr::from(a) $op b,
+            (Opd::F(a), Opd::V(b)) => a $op b,
+            (Opd::F(a), Opd::E(b)) => a $op b,
+            (Opd::F(a), Opd::I(b)) => Expr::from(a) $op b,
+            (Opd::F(a), Opd::F(b)) => Expr::from(a) $op b,
+            (Opd::E(a), Opd::V(b)) => a $op b,
+            (Opd::E(a), Opd::I(b)) => a $op b,
+            (Opd::E(a), Opd::F(b)) => a $op b,
+            (Opd::E(a), Opd::E(b)) => if true { a $op &b } else { a $op b },
+        }
+    };
+}
+
+/// `&`, `|` take Booleans on either side of a handle or an expression.
+macro_rules! bitlogic {
+    ($a:expr, $b:expr, $op:tt) => {
+        match ($a, $b) {
+            (Opd::V(a), Opd::V(b)) => a $op b,
+            (Opd::V(a), Opd::E(b)) => a $op b,
+            (Opd::E(a), Opd::V(b)) => a $op b,
+            (Opd::E(a), Opd::E(b)) => a $op b,
+            (Opd::V(a), Opd::I(b)) if b == 0 || b == 1 => a $op (b == 1),
+            (Opd::E(a), Opd::I(b)) if b == 0 || b == 1 => a $op (b == 1),
+            (Opd::I(a), Opd::V(b)) if a == 0 || a == 1 => (a == 1) $op b,
+            (Opd::I(a), Opd::E(b)) if a == 0 || a == 1 => (a == 1) $op b,
+            (a, b) => a.into_expr() $op b.into_expr(),
+        }
+    };
+}
+
+fn all_vars(xs: &[Opd]) -> Option<Vec<Var>> {
+    xs.iter().map(|x| if let Opd::V(v) = x { Some(*v) } else { None }).collect()
+}
+
+fn to_native(t: &Value, vars: &HashMap<String, Var>) -> Opd {
+    let op = t["op"].as_str().unwrap();
+    let a = || to_native(&t["a"], vars);
+    let b = || to_native(&t["b"], vars);
+    let args = || t["args"].as_array().unwrap().iter().map(|x| to_native(x, vars)).collect::<Vec<_>>();
+    // helpers taking `impl IntoIterator<Item = impl Into<Expr>>`: a list of handles when possible
+    macro_rules! list {
+        ($f:ident) => {{
+            let xs = args();
+            match all_vars(&xs) {
+                Some(vs) => $f(vs),
+                None => $f(xs.into_iter().map(Opd::into_expr)),
+            }
+        }};
+    }
+    macro_rules! method {
+        ($m:ident) => {
+            match (a(), b()) {
+                (Opd::V(x), Opd::V(y)) => x.$m(y),
+                (Opd::V(x), Opd::I(y)) => x.$m(y),
+                (Opd::V(x), Opd::F(y)) => x.$m(y),
+                (Opd::V(x), Opd::E(y)) => x.$m(y),
+                (x, Opd::V(y)) => x.into_expr().$m(y),
+                (x, Opd::I(y)) => x.into_expr().$m(y),
+                (x, Opd::F(y)) => x.into_expr().$m(y),
+                (x, Opd::E(y)) => x.into_expr().$m(y),
+            }
+        };
+    }
+    Opd::E(match op {
+        "num" => {
+            let (n, d) = (t["n"].as_i64().unwrap(), t["d"].as_i64().unwrap());
+            return if d == 1 && n.abs() < (1 << 30) { Opd::I(n as i32) } else { Opd::F(n as f64 / d as f64) };
+        }
+        "var" => return Opd::V(vars[t["name"].as_str().unwrap()]),
+        "add" => {
+            // a left-nested chain of additions is what `sum` is documented to build
+            let mut spine = vec![];
+            let mut cur = t;
+            while cur["op"] == "add" {
+                spine.push(&cur["b"]);
+                cur = &cur["a"];
+            }
+            if spine.len() >= 2 {
+                spine.push(cur);
+                spine.reverse();
+                let xs: Vec<Opd> = spine.into_iter().map(|x| to_native(x, vars)).collect();
+                match all_vars(&xs) {
+                    Some(vs) => rooc::builder::sum(vs),
+                    None => rooc::builder::sum(xs.into_iter().map(Opd::into_expr)),
+                }
+            } else {
+                arith!(a(), b(), +)
+            }
+        }
+        "sub" => arith!(a(), b(), -),
+        "mul" => arith!(a(), b(), *),
+        "div" => arith!(a(), b(), /),
+        "neg" => match a() {
+            Opd::V(v) => -v,
+            x => -x.into_expr(),
+        },
+        "abs" => match a() {
+            Opd::V(v) => abs(v),
+            Opd::I(i) => abs(i),
+            Opd::F(f) => abs(f),
+            Opd::E(e) => abs(e),
+        },
+        "min" => list!(min),
+        "max" => list!(max),
+        "and" => list!(all),
+        "or" => list!(any),
+        "not" | "u_not" => match a() {
+            Opd::V(v) => !v,
+            x => !x.into_expr(),
+        },
+        "xor" | "b_xor" => match (a(), b()) {
+            (Opd::V(x), Opd::V(y)) => x ^ y,
+            (Opd::V(x), Opd::E(y)) => x ^ y,
+            (Opd::E(x), Opd::V(y)) => x ^ y,
+            (x, y) => x.into_expr() ^ y.into_expr(),
+        },
+        "implies" | "b_implies" => method!(implies),
+        "iff" | "b_iff" => method!(iff),
+        "b_and" => bitlogic!(a(), b(), &),
+        "b_or" => bitlogic!(a(), b(), |),
+        o => panic!("op {o}"),
+    })
+}
+
+/// A constraint written with the `constraint!` macro (the comparison token picks the relation).
+fn macro_constraint(lhs: Expr, cmp: &str, rhs: Expr, name: &str, assert: bool) -> BuilderConstraint {
+    let mut c = if assert {
+        rooc::constraint!(lhs)
+    } else {
+        match cmp {
+            "le" => rooc::constraint!(lhs <= rhs),
+            "ge" => rooc::constraint!(lhs >= rhs),
+            "eq" => rooc::constraint!(lhs == rhs),
+            "lt" => rooc::constraint!(lhs < rhs),
+            "gt" => rooc::constraint!(lhs > rhs),
+            o => panic!("cmp {o}"),
+        }
+    };
+    c.name = name.to_string();
+    c
+}
+
 fn point_json<T: Copy + Into<f64>>(vals: &[(String, Option<T>)]) -> Value {
     vals.iter()
         .map(|(n, v)| match v {
@@ -79,11 +253,8 @@ fn with_lm(mut v: Value, lm: Option<&rooc::LinearModel>, model: Option<Value>) -
     v
 }
 
-pub fn doors_event(case: &Value) -> Value {
-    let mut ev = json!({"id": case["id"], "sense": case["sense"], "obj": case["obj"], "cons": case["cons"], "dom": case["dom"],
-                        "plan": case["plan"], "text": case["text"], "ktext": case["ktext"]});
-    // ---- B: builder --------------------------------------------------------------
-    let b = catch_unwind(AssertUnwindSafe(|| {
+fn builder_door(case: &Value, native: bool) -> Value {
+    catch_unwind(AssertUnwindSafe(|| {
         let mut mb = ModelBuilder::new();
         let mut vars: HashMap<String, Var> = HashMap::new();
         let mut order = vec![];
@@ -96,24 +267,27 @@ pub fn doors_event(case: &Value) -> Value {
         // one extra declared-but-unused variable
         let spare = mb.add_var("spare", rooc::VariableType::IntegerRange(2, 5));
         order.push(("spare".to_string(), spare));
+        let ex = |t: &Value| if native { to_native(t, &vars).into_expr() } else { to_expr(t, &vars) };
         let cons: Vec<BuilderConstraint> = case["cons"]
             .as_array()
             .unwrap()
             .iter()
             .map(|c| {
                 let name = c["name"].as_str().unwrap_or("").to_string();
-                if c["assert"].as_bool().unwrap_or(false) {
-                    BuilderConstraint::new_logic_assertion(to_expr(&c["lhs"], &vars), name)
+                if native {
+                    macro_constraint(ex(&c["lhs"]), c["cmp"].as_str().unwrap(), ex(&c["rhs"]), &name, c["assert"].as_bool().unwrap_or(false))
+                } else if c["assert"].as_bool().unwrap_or(false) {
+                    BuilderConstraint::new_logic_assertion(ex(&c["lhs"]), name)
                 } else {
-                    BuilderConstraint::new(to_expr(&c["lhs"], &vars), cmp_from(c["cmp"].as_str().unwrap()), to_expr(&c["rhs"], &vars), name)
+                    BuilderConstraint::new(ex(&c["lhs"]), cmp_from(c["cmp"].as_str().unwrap()), ex(&c["rhs"]), name)
                 }
             })
             .collect();
         // the builder is handed the model's own objective and a decoy; the plan decides which wins
         let real_obj = case.get("builder_obj").unwrap_or(&case["obj"]);
         let real_sense = case.get("builder_sense").and_then(|s| s.as_str()).unwrap_or(case["sense"].as_str().unwrap());
-        let obj_expr = to_expr(real_obj, &vars);
-        let decoy = to_expr(&case["decoy"], &vars);
+        let obj_expr = ex(real_obj);
+        let decoy = ex(&case["decoy"]);
         let mut next = 0usize;
         let mut last_obj = "sat".to_string();
         for call in case["plan"]["calls"].as_array().unwrap() {
@@ -156,7 +330,7 @@ pub fn doors_event(case: &Value) -> Value {
                 let typed: Vec<(String, Option<f64>)> = order.iter().map(|(n, v)| (n.clone(), sol.var_value(*v).map(|x| x.into()))).collect();
                 let byname: Vec<(String, Option<f64>)> = order.iter().map(|(n, _)| (n.clone(), sol.solution().value_of(n).map(|x| x.into()))).collect();
                 // eval of the objective the specification expects the built model to have
-                let expected_obj = to_expr(&case["obj"], &vars);
+                let expected_obj = ex(&case["obj"]);
                 let eval_obj = if case["sense"] == "sat" { 0.0 } else { sol.eval(&expected_obj) };
                 let evals: Vec<Value> = cons.iter().map(|c| json!({"lhs":num_obs(sol.eval(&c.lhs)),"rhs":num_obs(sol.eval(&c.rhs))})).collect();
                 json!({"out":"solution","point":point_json(&handles),"typed":point_json(&typed),"byname":point_json(&byname),
@@ -165,8 +339,15 @@ pub fn doors_event(case: &Value) -> Value {
         };
         with_lm(out, Some(&lm), mj)
     }))
-    .unwrap_or_else(|_| with_lm(fail("panic", String::new()), None, None));
-    ev["B"] = b;
+    .unwrap_or_else(|_| with_lm(fail("panic", String::new()), None, None))
+}
+
+pub fn doors_event(case: &Value) -> Value {
+    let mut ev = json!({"id": case["id"], "sense": case["sense"], "obj": case["obj"], "cons": case["cons"], "dom": case["dom"],
+                        "plan": case["plan"], "text": case["text"], "ktext": case["ktext"]});
+    // ---- B / N: builder (all-Expr operands; native overloads + macros) ----------
+    ev["B"] = builder_door(case, false);
+    ev["N"] = builder_door(case, true);
     // ---- T / K: text through parser + linearizer + auto_solver ---------------------
     let text_door = |src: &str, constants: Vec<rooc::Constant>| {
         catch_unwind(AssertUnwindSafe(|| {
